@@ -126,6 +126,11 @@ func mineralCase(tag string, g *hermes.GlobalVarsMain, l *hermes.NitroSharedVars
 		pools0[z] = g.NAOS[z] + g.MINAOS[z] + g.NFOS[z] + g.MINFOS[z]
 	}
 	ums0, dsumm := g.UMS, g.DSUMM
+	// the per-layer outputs of the call are poisoned first (g and l are copies): a layer the kernel skips keeps the poison instead of
+	// looking right by accident (stale source terms of an earlier day would be fed to the transport step; seeded C07-17, C02-17)
+	for z := 0; z < num; z++ {
+		g.DN[z], l.DUMS[z], l.DNH4UMS[z] = 7.25+float64(z), -3.5-float64(z), 11.125+float64(z)
+	}
 	hermes.VerifMineral(g, l)
 	outs := make([][]string, num)
 	for z := 0; z < num; z++ {
@@ -307,6 +312,9 @@ func synthNitro(r *rng) {
 			ii = n - 1
 		}
 		g.WG[0][i] = r.between(p.WMIN[ii]/3+0.005, p.PORGES[ii])
+		if r.chance(0.08) {
+			g.WG[0][i] = p.PORGES[ii] // a water-logged layer (groundwater inside the mineralisation depth)
+		}
 	}
 	for i := 0; i < n && i < 20; i++ {
 		g.AD[i] = []float64{0.002, 0.004, 0.0015}[r.intn(3)]
